@@ -301,7 +301,7 @@ def smoother_matrix(c, A_brows, nrows):
             den = F(0); num = [F(0)] * (b * b)
             for col, v in rw:
                 nv = sqrt_q(sum(x * x for x in v)); den += nv * nv
-                if col == I: num = [p + q for p, q in zip(num, v)]
+                if col == I: num = [num[s * b + t] + v[t * b + s] for s in range(b) for t in range(b)]   # num += math::adjoint(v) (transpose; spai0.hpp since the repair of C06-spai0-no-conj)
             if den == 0: return None
             blk = [[num[s * b + t] / den for t in range(b)] for s in range(b)]
         else: return None
